@@ -222,7 +222,9 @@ def globSplit (f : Flags) (isBytes : Bool) (pattern : List Char) : Except SplitE
       let needBase :=
         (c.flags.extmatchbase && !((parts.head?.map (·.isDrive)).getD false)) ||
         (c.flags.matchbase && parts.length == 1 && !((parts.head?.map (·.dirOnly)).getD false))
-      let parts := if needBase then basePart c :: parts else parts
+      -- inserted only if the pattern does not already start with a globstar part (the RGLOBSTAR
+      -- repair: consecutive globstars are one)
+      let parts := if needBase && !((parts.head?.map (·.isGlobstar)).getD false) then basePart c :: parts else parts
       if c.flags.noabsolute && (parts.head?.map (·.isDrive)).getD false then .error .noAbsolute
       else .ok parts
 
